@@ -16,8 +16,11 @@ package common
 //@   pure
 
 // ---- C08: reserved words. An identifier is escaped when its C++ spelling (after the case conversion) is reserved.
+// The generated equality operators take their argument as `other` (`bool operator==(const R& other) const`): a field
+// of that name would be compared with itself.
 //@ func FieldIdentifierName
 //@   property C08
+//@   ensures the_name_of_the_compared_object_is_not_a_field_name: lastResult(formatting.ToSnakeCase) == "other" ==> result != "other"
 //@   ensures unreserved_spelling_is_kept: !(lastResult(formatting.ToSnakeCase) in reservedNames) ==> result == lastResult(formatting.ToSnakeCase)
 //@   ensures reserved_spelling_is_escaped: (lastResult(formatting.ToSnakeCase) in reservedNames) ==> result == lastResult(formatting.ToSnakeCase) + "_field"
 //@ func ComputedFieldIdentifierName
